@@ -26,7 +26,7 @@ ASSUMPTIONS = [
     'by the statement and are not compared',
 ]
 ANCHORS = ['Table.concat', 'concat']
-REQUIRED = ['names_shared_between_the_axes', 'non_disjoint_under_relaxed_profile', 'hollow_operand_cases', 'hollow_operand_concatenated', 'concat_calls', 'operand_list_reused', 'branch_padding', 'branch_resort',
+REQUIRED = ['concatenated_again_after_in_place_change', 'names_shared_between_the_axes', 'non_disjoint_under_relaxed_profile', 'hollow_operand_cases', 'hollow_operand_concatenated', 'concat_calls', 'operand_list_reused', 'branch_padding', 'branch_resort',
             'branch_passthrough', 'non_disjoint_refused', 'via_biom_concat',
             'via_table_concat', 'single_table_arg', 'axis_sample',
             'axis_observation', 'k1', 'k2', 'k3plus']
@@ -200,41 +200,74 @@ def run_case(ctx, index):
                 ctx.count('operand_list_reused')
         ctx.count('via_table_concat')
     ctx.count('concat_calls')
-    s = snap.snap(res)
-    exp_ax = [i for sp in specs for i in sp.ids(axis)]
-    if s.ids(axis) != exp_ax:
-        raise Violation('C10/concat-axis-ids', 'result has %r, operands in '
-                        'order give %r; case=%r' % (s.ids(axis), exp_ax,
-                                                    desc))
-    union = set()
-    for sp in specs:
-        union |= set(sp.ids(inv))
-    if set(s.ids(inv)) != union or len(s.ids(inv)) != len(union):
-        raise Violation('C10/other-axis-ids', 'result has %r, union is %r; '
-                        'case=%r' % (s.ids(inv), sorted(union), desc))
-    R = s.D if axis == 'observation' else s.D.T     # rows = concat axis
-    row = 0
-    for sp in specs:
-        V = sp.D if axis == 'observation' else sp.D.T
-        md = snap.canon_md(sp.md(axis), len(sp.ids(axis)))
-        for a, i in enumerate(sp.ids(axis)):
-            for b, o in enumerate(s.ids(inv)):
-                e = V[a, sp.ids(inv).index(o)] if o in sp.ids(inv) else 0.0
-                if not snap.bits_equal([R[row, b]], [e]):
-                    raise Violation('C10/cell-value', 'cell (%s %r, %s %r) '
-                                    'is %r, expected %r; case=%r' %
-                                    (axis, i, inv, o, float(R[row, b]),
-                                     float(e), desc))
-            if not snap.md_equal([s.md(axis)[row]], [md[a]]):
-                raise Violation('C10/metadata', '%s %r carries %r, its own '
-                                'metadata is %r; case=%r' %
-                                (axis, i, s.md(axis)[row], md[a], desc))
-            row += 1
-    if vclass in ('count', 'dyadic', 'bigcount'):
-        tot = sum(float(sp.D.sum()) for sp in specs)
-        if float(s.D.sum()) != tot:
-            raise Violation('C10/grand-total', '%r vs %r; case=%r' %
-                            (float(s.D.sum()), tot, desc))
+
+    def verify(res):
+        s = snap.snap(res)
+        exp_ax = [i for sp in specs for i in sp.ids(axis)]
+        if s.ids(axis) != exp_ax:
+            raise Violation('C10/concat-axis-ids', 'result has %r, operands in '
+                            'order give %r; case=%r' % (s.ids(axis), exp_ax,
+                                                        desc))
+        union = set()
+        for sp in specs:
+            union |= set(sp.ids(inv))
+        if set(s.ids(inv)) != union or len(s.ids(inv)) != len(union):
+            raise Violation('C10/other-axis-ids', 'result has %r, union is %r; '
+                            'case=%r' % (s.ids(inv), sorted(union), desc))
+        R = s.D if axis == 'observation' else s.D.T     # rows = concat axis
+        row = 0
+        for sp in specs:
+            V = sp.D if axis == 'observation' else sp.D.T
+            md = snap.canon_md(sp.md(axis), len(sp.ids(axis)))
+            for a, i in enumerate(sp.ids(axis)):
+                for b, o in enumerate(s.ids(inv)):
+                    e = V[a, sp.ids(inv).index(o)] if o in sp.ids(inv) else 0.0
+                    if not snap.bits_equal([R[row, b]], [e]):
+                        raise Violation('C10/cell-value', 'cell (%s %r, %s %r) '
+                                        'is %r, expected %r; case=%r' %
+                                        (axis, i, inv, o, float(R[row, b]),
+                                         float(e), desc))
+                if not snap.md_equal([s.md(axis)[row]], [md[a]]):
+                    raise Violation('C10/metadata', '%s %r carries %r, its own '
+                                    'metadata is %r; case=%r' %
+                                    (axis, i, s.md(axis)[row], md[a], desc))
+                row += 1
+        if vclass in ('count', 'dyadic', 'bigcount'):
+            tot = sum(float(sp.D.sum()) for sp in specs)
+            if float(s.D.sum()) != tot:
+                raise Violation('C10/grand-total', '%r vs %r; case=%r' %
+                                (float(s.D.sum()), tot, desc))
+        return union
+    union = verify(res)
+    for t, b in zip(tables, befores):
+        oracles.unchanged(t, b, 'C10/operand-modified', desc, 'operand')
+    if index % 5 == 2 and hollow is None:
+        # the same operand objects once more after one of them was changed
+        # in place (other-axis ids renamed so that their order turns round,
+        # or every value doubled): the second result is built from the
+        # operands as they are now
+        j = r.randrange(k)
+        sp, t = specs[j], tables[j]
+        how = r.choice(['rename-other-axis', 'rename-other-axis', 'double'])
+        desc['changed_in_place_then_again'] = (j, how)
+        if how == 'double':
+            t.transform(lambda v, i, m: v * 2, axis=axis, inplace=True)
+            sp.D = sp.D * 2
+        else:
+            old = list(sp.ids(inv))
+            rank = {i: q for q, i in enumerate(sorted(old))}
+            new_ids = ['r%02d_%s' % (len(old) - 1 - rank[i], i) for i in old]
+            t.update_ids(dict(zip(old, new_ids)), axis=inv, inplace=True)
+            sp.ids(inv)[:] = new_ids
+        desc['operands'] = [x.describe() for x in specs]
+        befores = [snap.snap(x) for x in tables]
+        if entry == 'biom':
+            import biom
+            res = biom.concat(list(tables), axis=axis)
+        else:
+            res = tables[0].concat(list(tables[1:]), axis=axis)
+        union = verify(res)
+        ctx.count('concatenated_again_after_in_place_change')
     for t, b in zip(tables, befores):
         oracles.unchanged(t, b, 'C10/operand-modified', desc, 'operand')
     # which branch did each operand take (reference-side classification)
